@@ -42,8 +42,11 @@ TermCtx(s, o) ==
   {<<s \o WithOpts[i], <<o \o WithOpts[j]>> >> : i \in 1..2, j \in 1..3}
   \cup {<<o \o WithOpts[j], <<s \o WithOpts[i]>> >> : i \in 1..2, j \in 1..3}
 \* syntactic contexts (index -> text), each asked against the allowed list <<s-free universe>>
+\* (the last four put a SECOND -or-later form - unlisted, and a listed GNU one - before and after the spelling)
 SynCtx(s) == << "(" \o s \o ")", "(" \o s \o " AND " \o Plain \o ")", Plain \o " OR " \o s, s \o " AND " \o Plain,
-                "(" \o Plain \o " OR " \o s \o ") AND " \o Plain, s \o " WITH " \o Exc1 \o " OR " \o Plain >>
+                "(" \o Plain \o " OR " \o s \o ") AND " \o Plain, s \o " WITH " \o Exc1 \o " OR " \o Plain,
+                s \o " AND " \o Plain \o "-or-later", Plain \o "-or-later OR " \o s,
+                Gnu \o " AND " \o s, s \o " OR " \o Gnu \o " WITH " \o Exc1 >>
 
 Res(c) == SatisfiesSpec(c[1], c[2])
 
@@ -55,6 +58,10 @@ PairOk(p, o) ==
   /\ \A n \in DOMAIN SynCtx(p[1]) :
         /\ Valid(SynCtx(p[1])[n]) = Valid(SynCtx(p[2])[n])
         /\ Res(<<SynCtx(p[1])[n], <<o, Plain>> >>) = Res(<<SynCtx(p[2])[n], <<o, Plain>> >>)
+  \* two-entry allowed lists holding the spelling next to the SAME id under an exception, in both orders
+  /\ \A i \in 1..2 :
+        /\ Res(<<X \o " WITH " \o Exc1, <<p[1], X \o " WITH " \o Exc1>> >>) = Res(<<X \o " WITH " \o Exc1, <<p[2], X \o " WITH " \o Exc1>> >>)
+        /\ Res(<<p[i], <<X \o " WITH " \o Exc1, p[1]>> >>) = Res(<<p[i], <<X \o " WITH " \o Exc1, p[2]>> >>)
 
 Interchangeable ==
   (vId > 0 /\ vRel > 0) =>
@@ -76,6 +83,11 @@ EmitPair(p, o) ==
        LET c1 == <<SynCtx(p[1])[n], <<o, Plain>> >>
            c2 == <<SynCtx(p[2])[n], <<o, Plain>> >>
        IN PrintT(ToJson([k |-> "same", calls |-> <<CallJ(c1), CallJ(c2)>>, exp |-> <<ResJ(c1), ResJ(c2)>>, posdep |-> PosDep(c1, c2)]))
+  /\ LET xe == X \o " WITH " \o Exc1
+         c1 == <<xe, <<p[1], xe>> >>   c2 == <<xe, <<p[2], xe>> >>
+         d1 == <<p[1], <<xe, p[1]>> >> d2 == <<p[1], <<xe, p[2]>> >>
+     IN /\ PrintT(ToJson([k |-> "same", calls |-> <<CallJ(c1), CallJ(c2)>>, exp |-> <<ResJ(c1), ResJ(c2)>>, posdep |-> PosDep(c1, c2)]))
+        /\ PrintT(ToJson([k |-> "same", calls |-> <<CallJ(d1), CallJ(d2)>>, exp |-> <<ResJ(d1), ResJ(d2)>>, posdep |-> PosDep(d1, d2)]))
 
 Emit ==
   /\ (vId > 0 /\ vRel = 0) =>
